@@ -199,7 +199,11 @@ def reference_paths(stmts, use_provider):
 
 def actual_paths(sql, use_provider):
     try:
-        lr = observe.runner_of(sql, "ansi", metadata={"s.__truthy__": ["x"]} if use_provider else None)
+        md = {"s.__truthy__": ["x"]} if use_provider else None
+        if use_provider == "stale":
+            # the provider's catalog still describes s.w1 as it was before the script rebuilt it: what the script defines must win
+            md["s.w1"] = ["old1", "old2"]
+        lr = observe.runner_of(sql, "ansi", metadata=md)
         return sorted([observe.col_str(c) for c in p] for p in lr.get_column_lineage(exclude_subquery_columns=True))
     except Exception as e:  # noqa
         return {"EXC": observe.exc_name(e), "msg": str(e)[:200]}
@@ -330,10 +334,12 @@ def _pattern_worker(payload):
     res = runner.Res()
     idx = 0
     for ops in pattern_sequences(ctx):
-        for use_provider in (False, True):
+        for use_provider in (False, True, "stale"):
             idx += 1
             if idx % nshards != shard:
                 continue
+            if use_provider == "stale" and ops[0] != "defA":
+                continue  # stale catalog: only histories that start by (re)building the table (before that the catalog legitimately answers)
             stmts = pattern_script(ops, use_provider)
             if stmts is None:
                 res.discard("pattern_not_well_formed")
@@ -344,7 +350,7 @@ def _pattern_worker(payload):
             script = ";\n".join(ir.r_stmt(s_) for s_ in stmts)
             exp = reference_paths(stmts, use_provider)
             c = {"script": script, "provider": use_provider, "expected_paths": exp, "ops": list(ops)}
-            res.case((script, use_provider), any(len(p) >= 3 for p in exp), labels=["pattern", "provider" if use_provider else "no_provider", f"ops={len(ops)}"] +
+            res.case((script, use_provider), any(len(p) >= 3 for p in exp), labels=["pattern", ("provider_with_stale_catalog" if use_provider == "stale" else "provider") if use_provider else "no_provider", f"ops={len(ops)}"] +
                      (["redefinition_then_read"] if "defB" in ops and ops.index("defB") < len(ops) - 1 else []), sample=c)
             d = compare(exp, actual_paths(script, use_provider))
             if d is None:
